@@ -217,14 +217,16 @@ where
             );
         }
 
-        // spawn a thread to forward the fingerprints to check
-        handles.push(std::thread::spawn(move || {
+        // spawn a thread to forward the fingerprints to check. It is deliberately not added to
+        // `handles`: it only ends once the checker (which owns the sending half) is dropped, so
+        // joining it from `Checker::join` would never return.
+        std::thread::spawn(move || {
             for fingerprint in controlflow_to_check_receiver {
                 for sender in &controlflow_channels {
                     let _ = sender.send(fingerprint);
                 }
             }
-        }));
+        });
 
         OnDemandChecker {
             model,
